@@ -206,6 +206,14 @@ def check(case):
         g = np.asarray(g, dtype=float)
         case.equal(g.shape, (nb + nt,), 'reduced gradient shape', kind='shape')
         _gtol(case, g, ref.cgrad(F_h, v0), 'reduced gradient')
+        # evaluated again at the same point (and after an evaluation in the other form): nothing accumulates
+        m.compute_sensitivities(lay(theta), x.copy(), dlogp_dpsi=None if U is None else U.copy(), **kw)
+        for rnd in (2, 3):
+            sc_r, g_r = m.compute_sensitivities(
+                lay(theta), x.copy(), dlogp_dpsi=None if U is None else U.copy(), reduce=True, **kw)
+            case.close(np.asarray(g_r, dtype=float), g, rtol=0, atol=0,
+                       what='reduced gradient of evaluation %d at the same point vs the first evaluation' % rnd)
+            case.close(sc_r, sc, rtol=0, atol=0, what='score of evaluation %d at the same point' % rnd)
 
     sep = None
     with case.clause('sens_separate'):
